@@ -96,7 +96,7 @@ pub fn gen_stmts(r: &mut Rng, g: &mut BodyGen, labels: usize, depth: usize, n: u
     }
 }
 
-const MODES: &[(&str, IM)] = &[
+pub const MODES: &[(&str, IM)] = &[
     ("before", IM::Before),
     ("after", IM::After),
     ("alternate", IM::Alternate),
@@ -132,8 +132,16 @@ pub enum Step {
 
 pub const PATHS: &[&str] = &["moditer", "compiter", "modifier"];
 
+thread_local! {
+    /// when set, a probe is `i32.const k; call <f>` (the `sem` family's reporting probes) instead of `i32.const k; drop`
+    pub static PROBE_CALL: std::cell::Cell<Option<u32>> = const { std::cell::Cell::new(None) };
+}
+
 fn probe_ops<'a>(k: i32) -> [Operator<'a>; 2] {
-    [Operator::I32Const { value: k }, Operator::Drop]
+    match PROBE_CALL.with(|c| c.get()) {
+        Some(f) => [Operator::I32Const { value: k }, Operator::Call { function_index: f }],
+        None => [Operator::I32Const { value: k }, Operator::Drop],
+    }
 }
 
 pub fn gen_plan(r: &mut Rng, toks: &[String], allow_special: bool, next_probe: &mut i32) -> Vec<Step> {
